@@ -86,7 +86,6 @@ def isEntChar (c : Char) : Bool := c = '-' || isAsciiAlpha c || isAsciiDigit c |
 /-- what one `search` step decides at a '<' or '&' -/
 inductive Cand where
   | tok (len : Nat) (t : Tok)     -- a tag of `len` characters starts here
-  | giveUp                        -- `return None`: no further tag will be found at all
   | skip                          -- not a tag: go on searching after this character
 
 /-- name / args split shared by the three angle-bracket forms: `inner` is the text
@@ -101,14 +100,14 @@ def candidate (s : Text) : Cand :=
   if "<!--#".toList.isPrefixOf s then
     let body := s.drop 5
     match findSub "-->".toList body with
-    | none => .giveUp
+    | none => .skip
     | some e =>
       let (endLen, isEnd) := match endMatchLen body with
         | some l => (l, !(pyStrip (body.take l)).isEmpty)
         | none => (0, false)
       -- name_match is applied to the whole remaining text, not just up to `e`
       match nameMatchLen (body.drop endLen) with
-      | none => .giveUp
+      | none => .skip
       | some l =>
         let a := endLen + l
         .tok (5 + e + 3) { text := s.take (5 + e + 3), isEnd := isEnd,
@@ -117,19 +116,19 @@ def candidate (s : Text) : Cand :=
   else if "<dtml-".toList.isPrefixOf s then
     let body := s.drop 6
     match findClose body with
-    | none => .giveUp
+    | none => .skip
     | some e =>
       match nameMatchLen body with
-      | none => .giveUp
+      | none => .skip
       | some l => .tok (6 + e + 1) { text := s.take (6 + e + 1), isEnd := false,
                                       name := pyStrip (body.take l), args := pyStrip ((body.take e).drop l) }
   else if "</dtml-".toList.isPrefixOf s then
     let body := s.drop 7
     match findClose body with
-    | none => .giveUp
+    | none => .skip
     | some e =>
       match nameMatchLen body with
-      | none => .giveUp
+      | none => .skip
       | some l => .tok (7 + e + 1) { text := s.take (7 + e + 1), isEnd := true,
                                       name := pyStrip (body.take l), args := pyStrip ((body.take e).drop l) }
   else if "&dtml".toList.isPrefixOf s && ((s.drop 5).head? = some '.' || (s.drop 5).head? = some '-') then
@@ -163,7 +162,6 @@ def scanHtml : Text → Option (Text × Tok × Text)
     if c = '<' || c = '&' then
       match candidate s with
       | .tok len tk => some ([], tk, s.drop len)
-      | .giveUp => none
       | .skip => (scanHtml t).map fun (l, tk, r) => (c :: l, tk, r)
     else (scanHtml t).map fun (l, tk, r) => (c :: l, tk, r)
 
